@@ -23,8 +23,14 @@ m = {
     "notes": "Unguarded 'fix:' commits in /repo (genuine defects repaired): " + "; ".join(FIX_COMMITS) + ". Known findings: /verif/known_findings.json. Exit codes: 0 held, 1 VIOLATION, 2 INCONCLUSIVE (reach obligation unmet / watchdog / provenance).",
     "not_applicable": NOT_APPLICABLE,
 }
+EXT = (" Build-phase extensions (DESIGN.md 11.5): the workload was widened after every seeded property-breaking change the check first missed "
+       "(158 confirmed changes under /verif/seeded are re-run with tools/seedtargets.sh); generic devices shared by the checks: 4-thread in-process "
+       "jobs of the random part (SHARED lists, Ctx.threaded), history priming before monitored calls, current-value / same-text arguments, "
+       "the single-URL invariant applied to every URL of random operation trees (parts named 'optree'), values crossing the compiled writer's 8 KiB "
+       "buffer sizes, copies/pickles of checked objects, typed arguments (str/int/float subclasses, Mapping flavours).")
 for c in CHECKS:
     pid = c["property_id"]
+    c = dict(c, text=c["text"] + EXT)
     m["checks"].append({
         "property_id": pid,
         "quick_cmd": f"./check {pid} quick",
